@@ -222,6 +222,16 @@ Definition localised_space (s : space) : space :=
      mult := fun e _ => if Nat.ltb e (sp_n s) && supp s e then 1%Z else 0%Z;
      supp := supp s |}.
 
+(* The layout shared by every discontinuous / barycentric / dual space of the library
+   (p0/p1/rwg0/snc0 *_barycentric_function_space, dual0/dual1_function_space, grid._get_data_multipliers for BC/RBC,
+   make_localised_space, DP0, DP1):
+     local2global[support] = arange(k * support_size).reshape(support_size, k);  local_multipliers[support] = 1 *)
+Definition arange_space (n k : nat) (sup : nat -> bool) : space :=
+  {| sp_n := n; sp_k := k;
+     l2g := fun e i => if sup e then k * rank sup e + i else 0;
+     mult := fun e _ => if sup e then 1%Z else 0%Z;
+     supp := sup |}.
+
 (* every zero-multiplier entry of a support row repeats a dof that the same row carries with a non-zero
    multiplier (needed by C16: the colouring only sees non-zero entries) *)
 Definition alias_closed (s : space) : Prop :=
